@@ -7,7 +7,6 @@ import (
 	"errors"
 	"fmt"
 	"io"
-	"math"
 	"unicode/utf8"
 
 	"github.com/ohler55/ojg"
@@ -330,12 +329,7 @@ func (t *Tokenizer) tokenizeBuffer(buf []byte, last bool) {
 					break
 				}
 				t.mode = fracMap
-				t.num.Frac = t.num.Frac*10 + uint64(b-'0')
-				t.num.Div *= 10.0
-				if math.MaxInt64 < t.num.Frac {
-					t.num.FillBig()
-					break
-				}
+				t.num.AddFrac(b)
 			}
 			off += i
 			if digitMap[b] == numDigit {
